@@ -77,7 +77,7 @@ func (c *Context) Setenv(key, value string) {
 	if c.Env == nil {
 		c.Env = []string{}
 	}
-	c.Env = append(c.Env, fmt.Sprintf("%v=%v", key, value))
+	c.Env = append(c.Env[:len(c.Env):len(c.Env)], fmt.Sprintf("%v=%v", key, value)) // never write into capacity shared with copies of this Context
 }
 
 // Envsubst replaces ${var} in the string based on environment variables in current context.
